@@ -1,20 +1,26 @@
 import CorsVerif.Proofs.Pattern
 import CorsVerif.Spec.Fetch
 import CorsVerif.Spec.Denote
+import CorsVerif.Proofs.Accept
 /-
   C13 — Origin-pattern grammar: documented forms accepted, documented non-forms rejected.
 
   Proved here (for every behaviour of the library oracles `ext`):
+    * C13_accept: every pattern of the documented form with a domain host (Spec/Grammar.lean: the
+      grammar given generatively, by parts; grey zones excluded) is accepted and parses to its parts;
     * C13_self: an accepted wildcard-free pattern (no `*.`, no `:*`) presented verbatim as an
       `Origin` value is parsed by the request-side lexer into an origin that the pattern denotes
       (with C01: it is allowed);
+    * C13_constants, C13_alphabets: the regenerated length maxima, ports, separators and byte tables
+      are the documented ones (no upper-case, non-ASCII, userinfo/path/query byte can ever be part
+      of a scheme or host);
     * rejection of documented defects that do not depend on the host grammar: `null`, `*`,
       the `file` scheme, a missing `://`, the scheme's default port, port 0, https with an IP host;
     * shape facts of every accepted pattern: non-empty lower-case scheme of at most 64 bytes,
       port absent / 1-65535 / wildcard, non-empty host value, wildcard base of at most 251 bytes.
-  C13_accept (every string of the documented grammar is accepted) and the full C13_reject
-  (every single-defect mutation is rejected) are NOT proved yet: they are stated below as
-  `def … : Prop` and covered by the `lex` correspondence suite only.
+  Not proved: acceptance of IP-literal and Punycode hosts (their verdicts come from the netip and
+  idna libraries, modelled as oracles) and the remaining single-defect rejections; these rest on the
+  `lex` correspondence suite with the grammar judge.
 -/
 namespace Cors
 open Gen Pat
@@ -144,17 +150,151 @@ theorem C13_alphabets :
     sameBytes Facts.origins_digits (Spec.b "0123456789") = true ∧
     sameBytes Facts.origins_nonzeroDigits (Spec.b "123456789") = true := by decide
 
-/-- The full statements that remain to be proved (covered by the `lex` suite only). -/
-def C13_accept_full : Prop :=
-  ∀ (ext : Ext) (s : Bytes), (∃ o, Lex.parse s = some o ∧ o.host.assumeIP = false ∧ Pat.plainIdnaOK o.host.value = true
-      ∧ ¬ Pat.hasXnLabel o.host.value ∧ o.scheme ≠ file ∧ ¬ Pat.isDefaultPortForScheme o.scheme o.port) →
-    ∃ p, parsePattern ext s = .ok p
+/-! ### Documented forms are accepted -/
+
+open Spec Accept in
+/-- **C13 (acceptance, domain hosts).** Every pattern of the documented form with a domain host —
+`Spec.DocPattern` (Spec/Grammar.lean): lower-case scheme of at most 64 bytes other than `file`;
+`://`; optionally `*.`; one or more letter-digit-hyphen labels of at most 63 bytes joined by dots,
+at most 253 bytes (251 after `*.`), optionally a trailing dot; optionally `:` and a port 1-65535
+without leading zeros that is not the scheme's default, or `:*` — is accepted by `ParsePattern`,
+whatever the library oracles answer, and parses to exactly its parts. -/
+theorem C13_accept (ext : Ext) (d : DocPattern) (h : d.ok = true) :
+    parsePattern ext d.render = .ok
+      { scheme := d.scheme, value := d.hostPattern,
+        kind := if d.wildcard then Kind.subdomains else Kind.domain,
+        port := match d.port with
+          | .absent => 0
+          | .num ds => portValue ds
+          | .any => Facts.origins_wildcardPort } := by
+  simp only [DocPattern.ok, Bool.and_eq_true, Bool.not_eq_true', Bool.or_eq_true, decide_eq_true_eq] at h
+  obtain ⟨⟨⟨⟨hs, hd⟩, hp⟩, hw⟩, hdef⟩ := h
+  have hL := labels_of_doc hd
+  have hsep : Spec.b "://" = [58, 47, 47] := by decide
+  have hstar : Spec.b "*." = [42, 46] := by decide
+  -- the shape of the rendered string
+  have hrender : d.render = d.scheme ++ (58 :: 47 :: 47 :: ((if d.wildcard then [42, 46] else []) ++ hostOf d.labels d.trailingDot ++ d.portString)) := by
+    unfold DocPattern.render DocPattern.hostPattern DocPattern.host hostOf
+    rw [hsep, hstar]
+    simp
+  have hstops : Stops d.portString := by
+    unfold DocPattern.portString
+    cases d.port with
+    | absent => exact Or.inl rfl
+    | num ds => exact stops_colon ds
+    | any => exact stops_colon [42]
+  -- not `*`, not `null`
+  have h58 : (58 : Nat) ∈ d.render := by rw [hrender]; simp
+  have hns : (d.render == Pat.star || d.render == Pat.null) = false := by
+    simp only [Bool.or_eq_false_iff, beq_eq_false_iff_ne, ne_eq]
+    constructor
+    · intro h0; rw [h0] at h58; revert h58; decide
+    · intro h0; rw [h0] at h58; revert h58; decide
+  unfold parsePattern
+  rw [if_neg (by rw [hns]; simp)]
+  rw [hrender, parseScheme_doc hs _ (by simp only [List.head?_cons, Option.all_some]; decide)]
+  simp only []
+  have hnf : (d.scheme == file) = false := by
+    unfold docScheme at hs
+    cases hsc : d.scheme with
+    | nil => rw [hsc] at hs; simp at hs
+    | cons c t =>
+      rw [hsc] at hs
+      simp only [Bool.and_eq_true, bne_iff_ne, ne_eq] at hs
+      have : Spec.b "file" = file := by decide
+      rw [← this]
+      simpa using hs.2
+  rw [if_neg (by rw [hnf]; simp)]
+  have hcut : Bytes.cutPrefix (58 :: 47 :: 47 :: ((if d.wildcard then [42, 46] else []) ++ hostOf d.labels d.trailingDot ++ d.portString))
+      Facts.origins_schemeHostSep = some ((if d.wildcard then [42, 46] else []) ++ hostOf d.labels d.trailingDot ++ d.portString) := by
+    simp [Facts.origins_schemeHostSep, Bytes.cutPrefix]
+  rw [hcut]
+  simp only []
+  have hwl : d.wildcard = true → (hostOf d.labels d.trailingDot).length ≤ 251 := by
+    intro hwt
+    rcases hw with h0 | h0
+    · rw [hwt] at h0; cases h0
+    · exact h0
+  rw [parseHostPattern_doc ext hL d.trailingDot d.wildcard hwl _ hstops]
+  simp only []
+  have hkind : ((if d.wildcard = true then Kind.subdomains else Kind.domain) == Kind.loopbackIP ||
+      (if d.wildcard = true then Kind.subdomains else Kind.domain) == Kind.nonLoopbackIP) = false := by
+    cases d.wildcard <;> rfl
+  rw [hkind]
+  simp only [Bool.false_and, Bool.false_eq_true, if_false]
+  have hvalue : d.hostPattern = (if d.wildcard then [42, 46] else []) ++ hostOf d.labels d.trailingDot := by
+    unfold DocPattern.hostPattern DocPattern.host hostOf
+    rw [hstar]
+  rw [hvalue]
+  unfold DocPattern.isDefaultPort at hdef
+  unfold DocPattern.portString
+  cases hport : d.port with
+  | absent => simp
+  | any =>
+    simp only [List.isEmpty_cons, Bool.false_eq_true, if_false]
+    have : Bytes.cutPrefix [58, 42] [Facts.origins_hostPortSep] = some [42] := by decide
+    rw [this]
+    simp only []
+    have : parsePortPattern [42] = some (Facts.origins_wildcardPort, []) := by decide
+    rw [this]
+    simp only [List.isEmpty_nil, Bool.not_true, Bool.false_eq_true, if_false]
+    have : isDefaultPortForScheme d.scheme Facts.origins_wildcardPort = false := by
+      simp [isDefaultPortForScheme, Facts.origins_wildcardPort, Facts.origins_portHTTP, Facts.origins_portHTTPS]
+    rw [this]
+    simp
+  | num ds =>
+    rw [hport] at hp hdef
+    simp only [List.isEmpty_cons, Bool.false_eq_true, if_false]
+    have : Bytes.cutPrefix (58 :: ds) [Facts.origins_hostPortSep] = some ds := by
+      simp [Bytes.cutPrefix, Facts.origins_hostPortSep]
+    rw [this]
+    simp only []
+    have hpp : parsePortPattern ds = some (portValue ds, []) := by
+      unfold parsePortPattern
+      have hd0 : ∃ c t, ds = c :: t ∧ c ≠ 42 := by
+        unfold docPortOK at hp
+        cases ds with
+        | nil => simp at hp
+        | cons c t =>
+          refine ⟨c, t, rfl, ?_⟩
+          simp only [Bool.and_eq_true, decide_eq_true_eq] at hp
+          omega
+      obtain ⟨c, t, rfl, hc⟩ := hd0
+      have : Bytes.cutPrefix (c :: t) Facts.origins_portWildcard = none := by
+        simp [Bytes.cutPrefix, Facts.origins_portWildcard, hc]
+      rw [this]
+      exact parsePort_doc _ hp
+    rw [hpp]
+    simp only [List.isEmpty_nil, Bool.not_true, Bool.false_eq_true, if_false]
+    have hndef : isDefaultPortForScheme d.scheme (portValue ds) = false := by
+      have e1 : Spec.b "http" = Facts.origins_schemeHTTP := by decide
+      have e2 : Spec.b "https" = Facts.origins_schemeHTTPS := by decide
+      simp only [e1, e2] at hdef
+      unfold isDefaultPortForScheme
+      simp only [Facts.origins_portHTTP, Facts.origins_portHTTPS]
+      rw [Bool.and_comm (portValue ds == 80), Bool.and_comm (portValue ds == 443)]
+      exact hdef
+    rw [hndef]
+    simp
+
+/-- Non-vacuity of `C13_accept`: documented patterns at work, including one with every part. -/
+def exDoc : Spec.DocPattern where
+  scheme := Spec.b "chrome-extension+v1.0"
+  wildcard := true
+  labels := [Spec.b "api-2", Spec.b "example", Spec.b "co", Spec.b "uk"]
+  trailingDot := true
+  port := .num (Spec.b "65535")
+example : exDoc.ok = true := by decide
+example : exDoc.render = Spec.b "chrome-extension+v1.0://*.api-2.example.co.uk.:65535" := by decide
+example : ({ scheme := Spec.b "https", wildcard := false, labels := [Spec.b "example", Spec.b "com"], trailingDot := false,
+             port := .num (Spec.b "443") } : Spec.DocPattern).ok = false := by decide   -- default port: not of the documented form
 
 /-- Non-vacuity: a concrete accepted pattern and its self-match (no oracle is consulted). -/
 def ext0 : Ext := { idnaXn := fun _ => false, isETLD := fun _ => false, ip6 := fun _ => none }
 example : (parsePattern ext0 (Spec.b "https://example.com:8080")).toOption.map (·.port) = some 8080 := by decide
 example : (Lex.parse (Spec.b "https://example.com:8080")).map (·.port) = some 8080 := by decide
 
+#print axioms C13_accept
 #print axioms C13_constants
 #print axioms C13_alphabets
 #print axioms C13_self
